@@ -15,11 +15,13 @@ THEOREMS = [
     "C20_agree_refuted",
     "C20_responses_agree_refuted",
     "C20_arrow_paths_disagree_refuted",
+    "C20_arrow_paths_agree_int_in_float",
     "C20_known_class_exact",
     "C20_agree_outside_known",
     "C20_error_status_same_body",
+    "C20_http_text_status_correct",
+    "C20_http_status_correct_outside_known",
     "C20_http_status_same_refuted",
-    "C20_http_status_differs_for_short_errors",
     "C20_http_status_outside_known",
 ]
 RULE = ("ColumnBatch streams built with the real BatchPool (schemas over every logical type name of logical_to_arrow_type plus unknown, "
@@ -48,7 +50,7 @@ TRUSTED = [
 
 CLAIMED = True
 MANIFEST = {
- "level_text": "Theorems over the model of the shared response writers and the three encoders (all schemas, cells, batch splits, LIMIT/OFFSET, batch sizes): the announced row count equals the rows emitted; the accepted rows are LIMIT(OFFSET(first-occurrence dedup)) and identical for every encoder; a cell whose runtime kind matches the declared type decodes alike from JSON, text and both Arrow paths; the full agreement claim is refuted with witnesses and the set of disagreeing cells is characterised exactly by eight classes; error bodies carry one status in all encodings while the HTTP status sniffed from the body does not. The model's encoder tables are regenerated from the Rust match arms on every run, and the model is run against the real QueryResponseWriter / ShowResponseWriter / renderers on generated ColumnBatch streams, decoded by independent readers.",
+ "level_text": "Theorems over the model of the shared response writers and the three encoders (all schemas, cells, batch splits, LIMIT/OFFSET, batch sizes): the announced row count equals the rows emitted; the accepted rows are LIMIT(OFFSET(first-occurrence dedup)) and identical for every encoder; a cell whose runtime kind matches the declared type decodes alike from JSON, text and both Arrow paths; the full agreement claim is refuted with witnesses and the set of disagreeing cells is characterised exactly by eight classes; error bodies carry one status in all encodings; since fix c214409 the HTTP status derived from the body is the error's own status for text errors of any length and for JSON / Arrow errors below 500 bytes, and still wrong (200) for longer JSON / Arrow bodies. The model's encoder tables are regenerated from the Rust match arms on every run, and the model is run against the real QueryResponseWriter / ShowResponseWriter / renderers on generated ColumnBatch streams, decoded by independent readers.",
  "design_ref": "DESIGN.md §6 C20",
  "level_note": "Trusted: Coq kernel; p50_render.py; ExtrOcamlBasic extraction + OCaml driver; the Rust harness and three add-only hooks; CPython json and arrow-ipc StreamReader as decoders. serde_json's document reading, f64 parsing and printing are inputs of the model. Engine-level production of the mixed-kind cells is not part of this check."
 }
